@@ -25,11 +25,18 @@ PROP = {
 }
 
 TEXT = {
-    "text": "No Lean theorem yet for this property (modules = []): correspondence (Liquid/Render.lean renderFileWith / incFuel on "
-            "the disk layout of every emitted case) plus model-independent oracles on the real engine (reference include, inlined "
-            "rendered output, error table, disk-over-cache precedence and cache fallback by table).",
-    "design_ref": "DESIGN.md 6 C14",
-    "note": NOTE + "The model's FS.cache hook is not connected to the case line yet: cache-only cases are judged by the oracles alone "
-                   "(case-line proposal: op `incl` with fs entries <namehex>:<diskhex|~>:<cachehex|~> and a trailing loc|cache field).",
-    "technique": "model/implementation correspondence + differential oracle against a reference include + metamorphic inlining",
+    "text": ("Theorems: the file name is the string value of the argument joined to the directory of the including template's "
+              "path, and the handler receives the includer's current variables (include_resolves); a non-string argument, a "
+              'missing file and an error inside the included template fail the render (include_nonstring_err, '
+              'include_missing_err, include_inner_compile_err); disk takes precedence over the cache and the cache is the '
+              "fallback (disk_over_cache, cache_fallback); what is inserted is exactly the render of the file's content with the "
+              'current variables (include_equiv); with fuel n+1 every chain of depth <= n is rendered by the real handler '
+              '(incFuel_succ). Tie: the `incl` stream answers every case (disk-only layouts as `render` lines, layouts with '
+              'cached sources as `incl` lines) by the model and the real engine, plus model-independent oracles: reference '
+              'include, inlined output, error table, precedence table.'),
+    "design_ref": 'DESIGN.md 6 C14',
+    "note": NOTE + ('Include depth is bounded by fuel 8 in the driver; a cyclic include is `unmodelled` there and judged by the oracle '
+              'alone.'),
+    "technique": ('Lean 4 proof (unfolding of the include handler of the render model) + model/implementation correspondence + '
+              'differential oracle against a reference include'),
 }
